@@ -19,6 +19,9 @@ mod faults;
 
 use runner::*;
 
+/// false in the guard-off build (binary bpsim-off of ../sim-nohooks): /repo linked without verif-hooks
+pub const HOOKS: bool = cfg!(feature = "hooks");
+
 #[global_allocator]
 static GLOBAL: alloc::CountingAlloc = alloc::CountingAlloc;
 use std::time::Instant;
